@@ -251,7 +251,7 @@ func drawC02(t *rapid.T) C02Case {
 		Unicode:   rapid.IntRange(0, 5).Draw(t, "unicode") == 0,
 		WideDates: true,
 	}
-	gen.MaybeLarge(t, &cfg, 40)
+	gen.MaybeLarge(t, &cfg, 4)
 	j := gen.GenJournal(t, cfg)
 	if rapid.IntRange(0, 3).Draw(t, "shuffle") == 0 {
 		j.Directives = gen.Shuffle(t, j.Directives)
